@@ -315,6 +315,19 @@ def long_configs(tier):
     return out
 
 
+def vlong_configs(tier):
+    """thorough tier: IID samples of more than a thousand draws (one arbitrary first draw, then a constant run), and a
+    small hypothesised mean; products of a thousand factors leave the floating-point range in both directions"""
+    if tier == "quick":
+        return []
+    out = []
+    for test, estim, bet, kw, t, L in (("kaplan_wald", None, None, {"g": "1/8"}, "1/2", 1300), ("kaplan_markov", None, None, {"g": "1/8"}, "1/2", 1300),
+                                       ("kaplan_markov", None, None, {"g": "1/8"}, "1/50", 400), ("kaplan_wald", None, None, {"g": "1/8"}, "1/50", 400),
+                                       ("betting_mart", None, "fixed_bet", {"lam": "1"}, "1/2", 1300), ("alpha_mart", None, None, {"eta": "3/4"}, "1/2", 1300)):
+        out.append({"test": test, "estim": estim, "bet": bet, "kw": kw, "u": "1", "t": t, "N": None, "H": L, "k": 2, "D": L, "paths": [1, L], "ro": True})
+    return out
+
+
 def bign_configs(tier):
     """short samples from a LARGE population (N = 1000, 100000): the first few draws are < 1% of the population"""
     out = []
